@@ -120,8 +120,38 @@ def _match_groups(ctx, rule, title, fi, what_label, A, B, comps, describe):
     semantic change is a VIOLATION naming the construct, an opaque difference is UNDECIDED); an
     event without counterpart is a VIOLATION."""
     from vstatic import terms as T
-    ca = [(e, comps(e)) for e in A]
-    cb = [(e, comps(e)) for e in B]
+
+    def merged(evs):
+        """events that are identical except for complementary guards (if c: X  else: X) are one unguarded event"""
+        items = [(e, comps(e)) for e in evs]
+        out = []
+        skip = set()
+        for i, (e, x) in enumerate(items):
+            if i in skip:
+                continue
+            gi = [k for k, (lab, _) in enumerate(x) if lab == 'guard']
+            done = False
+            if gi:
+                g = gi[0]
+                for j in range(i + 1, len(items)):
+                    if j in skip:
+                        continue
+                    y = items[j][1]
+                    if len(y) == len(x) and all(x[k][1].key == y[k][1].key for k in range(len(x)) if k != g):
+                        both = T.mk_or([x[g][1], y[g][1]])
+                        inter = T.mk_and([x[g][1], y[g][1]])
+                        if T.compare(T.mk_not(x[g][1]), _rel_not(x[g][1], y[g][1]))[0] == T.EQUAL:
+                            x2 = list(x)
+                            x2[g] = ('guard', _common_guard(x[g][1], y[g][1]))
+                            out.append((e, x2))
+                            skip.add(j)
+                            done = True
+                            break
+            if not done:
+                out.append((e, x))
+        return out
+    ca = merged(A)
+    cb = merged(B)
     used = set()
     left = []
     for ea, xa in ca:
@@ -139,9 +169,25 @@ def _match_groups(ctx, rule, title, fi, what_label, A, B, comps, describe):
             ctx.ob(rule, f'{title}: {what_label} `{describe(ea)}` has an equal counterpart in the reference definition', fi, True,
                    {'matched_reference': describe(cb[hit][0])}, node=ea.node, construct=describe(ea))
     rest_b = [cb[k] for k in range(len(cb)) if k not in used]
+    # pair the leftovers: prefer a counterpart that agrees on the identifying components (object / attribute /
+    # callee / container), fall back to position
+    ident = ('object', 'attribute', 'callee', 'container')
+    ordered = []
+    pool = list(rest_b)
+    for ea, xa in left:
+        pick = None
+        for k, (eb, xb) in enumerate(pool):
+            if len(xb) == len(xa) and all(u[1].key == v[1].key for u, v in zip(xa, xb) if u[0] in ident):
+                pick = k
+                break
+        ordered.append(pool.pop(pick) if pick is not None else None)
+    for n in range(len(ordered)):
+        if ordered[n] is None and pool:
+            ordered[n] = pool.pop(0)
+    rest_b = [x for x in ordered if x is not None] + pool
     for n, (ea, xa) in enumerate(left):
-        if n < len(rest_b) and len(rest_b[n][1]) == len(xa):
-            eb, xb = rest_b[n]
+        if n < len(ordered) and ordered[n] is not None and len(ordered[n][1]) == len(xa):
+            eb, xb = ordered[n]
             for (la, ta), (lb, tb) in zip(xa, xb):
                 ctx.formula(rule, f'{title}: {what_label} {la} == reference', fi, ta, tb, node=ea.node,
                             construct=describe(ea) + f' [{la}]')
@@ -155,15 +201,51 @@ def _match_groups(ctx, rule, title, fi, what_label, A, B, comps, describe):
                construct=f'missing {what_label}: ' + describe(eb))
 
 
+def _split_guard(g):
+    from vstatic import terms as T
+    a = g.single_atom()
+    if a is not None and a.kind == 'and':
+        return list(a.args)
+    return [] if g.key == T.TRUE.key else [g]
+
+
+def _rel_not(g1, g2):
+    """g2 with the conjuncts shared with g1 removed (so that `P and c` / `P and not c` are recognised)"""
+    from vstatic import terms as T
+    k1 = {c.key for c in _split_guard(g1)}
+    rest2 = [c for c in _split_guard(g2) if c.key not in k1]
+    k2 = {c.key for c in _split_guard(g2)}
+    rest1 = [c for c in _split_guard(g1) if c.key not in k2]
+    if len(rest1) == 1 and len(rest2) == 1:
+        # complementary iff rest2 == not rest1 ; return something that compares equal to not(g1) exactly in that case
+        if T.mk_not(rest1[0]).key == rest2[0].key:
+            return T.mk_not(g1)
+    return T.mk_and([g2, T.lift('distinct')])
+
+
+def _common_guard(g1, g2):
+    from vstatic import terms as T
+    k2 = {c.key for c in _split_guard(g2)}
+    return T.mk_and([c for c in _split_guard(g1) if c.key in k2])
+
+
 def agree_ref(ctx, fi, ref_src, title, what=('return', 'heap', 'substores'), rule='AGREE', skip_attrs=(), **runkw):
     """Compare a function with a reference transcription of the property's definition evaluated by
     the same interpreter: return value, final values of self attributes, attribute stores, calls,
     buffer stores, loop-carried updates, raise/assert guards.  Events are matched as multisets (the
     order of independent statements is free); values are compared in normal form."""
     from vstatic import terms as T
+    runkw = dict(runkw)
+    if runkw.get('max_depth', None) == 0:
+        # opaque = exactly the package functions the REFERENCE calls; anything else (e.g. a private helper a
+        # refactoring introduced) is inlined, so it is compared through its effects
+        r0, I0 = ctx.run_ref(fi, ref_src, **dict(runkw))
+        opaque = {e.data['name'] for e in I0.events if e.kind == 'call' and e.data.get('resolved') is not None}
+        runkw['no_inline'] = tuple(set(runkw.get('no_inline', ())) | opaque)
+        runkw['max_depth'] = 3
     r, I = ctx.run(fi, **dict(runkw))
     rr, IR = ctx.run_ref(fi, ref_src, **dict(runkw))
-    own = fi.short
+    own = None           # events of helpers the function was inlined through belong to its behaviour
     txt = lambda e: e.text()[:90]
     if 'return' in what:
         ctx.formula(rule, f'{title}: returned value == reference definition', fi, r.ret, rr.ret, node=fi.node,
@@ -195,7 +277,7 @@ def agree_ref(ctx, fi, ref_src, title, what=('return', 'heap', 'substores'), rul
         def with_carried(II, o, loops):
             ids = {l['id'] for e in sell(II, o) for l in e.loops}
             return [e for e in loops if e.data['info']['id'] in ids]
-        la = with_carried(I, own, [e for e in I.events if e.kind == 'loop' and e.func.short == own])
+        la = with_carried(I, own, [e for e in I.events if e.kind == 'loop'])
         lb = with_carried(IR, None, [e for e in IR.events if e.kind == 'loop'])
         _match_groups(ctx, rule, title, fi, 'loop', [e for e in la if 'trip' in e.data['info']],
                       [e for e in lb if 'trip' in e.data['info']], lambda e: [('trip count', e.data['info']['trip'])],
@@ -203,7 +285,7 @@ def agree_ref(ctx, fi, ref_src, title, what=('return', 'heap', 'substores'), rul
     if 'calls' in what:
         def selc(II, o):
             return [e for e in II.events if e.kind == 'call' and (o is None or e.func.short == o)
-                    and (e.data.get('resolved') is not None or 'candidates' in e.data)]
+                    and (e.data.get('resolved') is not None or 'candidates' in e.data) and not e.data.get('inlined')]
 
         def packed(e):
             extra = [e.data.get('star') if e.data.get('star') is not None else T.NONE,
@@ -217,12 +299,12 @@ def agree_ref(ctx, fi, ref_src, title, what=('return', 'heap', 'substores'), rul
         _match_groups(ctx, rule, title, fi, 'call', selc(I, own), selc(IR, None),
                       lambda e: [('callee', lift(e.data['name'])), ('arguments', packed(e)), ('guard', e.cond())], txt)
     if 'asserts' in what:
-        aa_ = [e for e in I.events if e.kind == 'assert' and e.func.short == own]
+        aa_ = [e for e in I.events if e.kind == 'assert']
         ab_ = [e for e in IR.events if e.kind == 'assert']
         _match_groups(ctx, rule, title, fi, 'assertion', aa_, ab_,
                       lambda e: [('condition', e.data['cond']), ('guard', e.cond())], txt)
     if 'deletes' in what:
-        da = [e for e in I.events if e.kind == 'delete' and e.func.short == own]
+        da = [e for e in I.events if e.kind == 'delete']
         db = [e for e in IR.events if e.kind == 'delete']
         _match_groups(ctx, rule, title, fi, 'deletion', da, db,
                       lambda e: [('object', e.data['base']), ('key', lift(e.data['key']) if isinstance(e.data['key'], str) else e.data['key'])],
@@ -232,7 +314,7 @@ def agree_ref(ctx, fi, ref_src, title, what=('return', 'heap', 'substores'), rul
         rb = [e for e in IR.events if e.kind == 'raise']
         _match_groups(ctx, rule, title, fi, 'rejecting path', ra, rb, lambda e: [('guard', e.cond())], txt)
     if 'substores' in what:
-        sa = [e for e in I.events if e.kind == 'store' and e.data.get('target') == 'sub' and e.func.short == own]
+        sa = [e for e in I.events if e.kind == 'store' and e.data.get('target') == 'sub']
         sb = [e for e in IR.events if e.kind == 'store' and e.data.get('target') == 'sub']
         _match_groups(ctx, rule, title, fi, 'buffer store', sa, sb,
                       lambda e: [('container', _root_base(e.data['base'])), ('index', e.data['key']), ('value', e.data['value']),
